@@ -151,6 +151,25 @@ func singleStore(a *ssa.Alloc) ssa.Value {
 				return nil // address stored somewhere
 			}
 		case *ssa.UnOp, *ssa.DebugRef:
+		case *ssa.MakeClosure:
+			// captured by a closure: fine as long as the closure only reads it
+			cl, ok := r.Fn.(*ssa.Function)
+			if !ok {
+				return nil
+			}
+			for i, bd := range r.Bindings {
+				if bd != a || i >= len(cl.FreeVars) {
+					continue
+				}
+				for _, fr := range *cl.FreeVars[i].Referrers() {
+					if st, ok := fr.(*ssa.Store); ok && st.Addr == cl.FreeVars[i] {
+						return nil
+					}
+					if _, ok := fr.(*ssa.MakeClosure); ok {
+						return nil
+					}
+				}
+			}
 		case *ssa.FieldAddr, *ssa.IndexAddr:
 			return nil
 		default:
